@@ -390,8 +390,11 @@ class Machine(RuleBasedStateMachine):
         except env.HarnessError:
             raise
         except Exception as e:
-            self.ex.fail("harness_exception", "exc:" + exc_sig(e), repr(e))
-            Machine.res.error("executor raised %r" % (e,))
+            if exc_sig(e).endswith("@None"):          # raised by the harness itself (no frame of the code under test)
+                Machine.res.error("executor raised %r" % (e,))
+                self.dead = True
+            else:
+                self.ex.fail("exception", "exc:" + exc_sig(e), "op %s raised %r" % (op[0], e))
         if self.ex.fails:
             self.dead = True
 
